@@ -179,8 +179,8 @@ def removeAt (m : ObsMgr) (l : Nat) (oid idx : Nat) : ObsMgr :=
       { es with allComps := ac, anyNoComps := nc }
   m.setEvt ev es
 
-/-- The loop bound of `Reset`: `range m.maxEventType + 1` is a `uint8` expression. -/
-def resetBound (maxEventType : Nat) : Nat := (maxEventType + 1) % 256
+/-- The loop bound of `Reset`: `range int(m.maxEventType) + 1`. -/
+def resetBound (maxEventType : Nat) : Nat := maxEventType + 1
 
 /-- `Reset`. -/
 def reset (m : ObsMgr) : ObsMgr :=
